@@ -247,3 +247,89 @@ func simpleCard(fn string) vcard.Card {
 	c.SetValue(vcard.FieldFormattedName, fn)
 	return c
 }
+
+// ---- one handler, several users: the backend answers for the user found in the request context (what a real
+// multi-user deployment does); anything a handler remembers from one user's request shows in the next user's answer
+
+type userKey struct{}
+
+func withUser(ctx context.Context, u string) context.Context {
+	return context.WithValue(ctx, userKey{}, u)
+}
+
+type multiCal struct{ users map[string]*calBackend }
+
+func (m *multiCal) of(ctx context.Context) *calBackend {
+	u, _ := ctx.Value(userKey{}).(string)
+	return m.users[u]
+}
+func (m *multiCal) CurrentUserPrincipal(ctx context.Context) (string, error) {
+	return m.of(ctx).CurrentUserPrincipal(ctx)
+}
+func (m *multiCal) CalendarHomeSetPath(ctx context.Context) (string, error) {
+	return m.of(ctx).CalendarHomeSetPath(ctx)
+}
+func (m *multiCal) CreateCalendar(ctx context.Context, c *caldav.Calendar) error {
+	return m.of(ctx).CreateCalendar(ctx, c)
+}
+func (m *multiCal) ListCalendars(ctx context.Context) ([]caldav.Calendar, error) {
+	return m.of(ctx).ListCalendars(ctx)
+}
+func (m *multiCal) GetCalendar(ctx context.Context, path string) (*caldav.Calendar, error) {
+	return m.of(ctx).GetCalendar(ctx, path)
+}
+func (m *multiCal) GetCalendarObject(ctx context.Context, path string, req *caldav.CalendarCompRequest) (*caldav.CalendarObject, error) {
+	return m.of(ctx).GetCalendarObject(ctx, path, req)
+}
+func (m *multiCal) ListCalendarObjects(ctx context.Context, path string, req *caldav.CalendarCompRequest) ([]caldav.CalendarObject, error) {
+	return m.of(ctx).ListCalendarObjects(ctx, path, req)
+}
+func (m *multiCal) QueryCalendarObjects(ctx context.Context, path string, q *caldav.CalendarQuery) ([]caldav.CalendarObject, error) {
+	return m.of(ctx).QueryCalendarObjects(ctx, path, q)
+}
+func (m *multiCal) PutCalendarObject(ctx context.Context, path string, cal *ical.Calendar, opts *caldav.PutCalendarObjectOptions) (*caldav.CalendarObject, error) {
+	return m.of(ctx).PutCalendarObject(ctx, path, cal, opts)
+}
+func (m *multiCal) DeleteCalendarObject(ctx context.Context, path string) error {
+	return m.of(ctx).DeleteCalendarObject(ctx, path)
+}
+
+type multiCard struct{ users map[string]*cardBackend }
+
+func (m *multiCard) of(ctx context.Context) *cardBackend {
+	u, _ := ctx.Value(userKey{}).(string)
+	return m.users[u]
+}
+func (m *multiCard) CurrentUserPrincipal(ctx context.Context) (string, error) {
+	return m.of(ctx).CurrentUserPrincipal(ctx)
+}
+func (m *multiCard) AddressBookHomeSetPath(ctx context.Context) (string, error) {
+	return m.of(ctx).AddressBookHomeSetPath(ctx)
+}
+func (m *multiCard) ListAddressBooks(ctx context.Context) ([]carddav.AddressBook, error) {
+	return m.of(ctx).ListAddressBooks(ctx)
+}
+func (m *multiCard) GetAddressBook(ctx context.Context, path string) (*carddav.AddressBook, error) {
+	return m.of(ctx).GetAddressBook(ctx, path)
+}
+func (m *multiCard) CreateAddressBook(ctx context.Context, ab *carddav.AddressBook) error {
+	return m.of(ctx).CreateAddressBook(ctx, ab)
+}
+func (m *multiCard) DeleteAddressBook(ctx context.Context, path string) error {
+	return m.of(ctx).DeleteAddressBook(ctx, path)
+}
+func (m *multiCard) GetAddressObject(ctx context.Context, path string, req *carddav.AddressDataRequest) (*carddav.AddressObject, error) {
+	return m.of(ctx).GetAddressObject(ctx, path, req)
+}
+func (m *multiCard) ListAddressObjects(ctx context.Context, path string, req *carddav.AddressDataRequest) ([]carddav.AddressObject, error) {
+	return m.of(ctx).ListAddressObjects(ctx, path, req)
+}
+func (m *multiCard) QueryAddressObjects(ctx context.Context, path string, q *carddav.AddressBookQuery) ([]carddav.AddressObject, error) {
+	return m.of(ctx).QueryAddressObjects(ctx, path, q)
+}
+func (m *multiCard) PutAddressObject(ctx context.Context, path string, card vcard.Card, opts *carddav.PutAddressObjectOptions) (*carddav.AddressObject, error) {
+	return m.of(ctx).PutAddressObject(ctx, path, card, opts)
+}
+func (m *multiCard) DeleteAddressObject(ctx context.Context, path string) error {
+	return m.of(ctx).DeleteAddressObject(ctx, path)
+}
